@@ -256,6 +256,10 @@ pub struct Tcb {
     /// any ACK that advances `snd_una`. When it hits the max the
     /// connection is aborted with `TimedOut`.
     pub retx_attempts: u32,
+    /// Egress passes spent with something to send, nothing in flight
+    /// and a zero peer window. Every `retx_threshold` passes a
+    /// zero-window probe goes out.
+    pub persist_ticks: u32,
 }
 
 /// Listener state. Attached to a socket by `listen(2)`.
